@@ -10,6 +10,7 @@ require (
 	github.com/ava-labs/hypersdk/examples/morpheusvm v0.0.0
 	github.com/prometheus/client_golang v1.16.0
 	go.uber.org/zap v1.26.0
+	google.golang.org/protobuf v1.35.2
 	pgregory.net/rapid v1.3.0
 )
 
@@ -71,7 +72,6 @@ require (
 	google.golang.org/genproto/googleapis/api v0.0.0-20240604185151-ef581f913117 // indirect
 	google.golang.org/genproto/googleapis/rpc v0.0.0-20240827150818-7e3bb234dfed // indirect
 	google.golang.org/grpc v1.66.0 // indirect
-	google.golang.org/protobuf v1.35.2 // indirect
 	gopkg.in/natefinch/lumberjack.v2 v2.0.0 // indirect
 	gopkg.in/yaml.v3 v3.0.1 // indirect
 )
